@@ -8,26 +8,33 @@ SIMS = ['AUTOUGH2', 'TOUGH2', 'TOUGH2_MP', 'TOUGHplus', 'TOUGHREACT', 'TOUGH3']
 
 def internal_fns(prog):
     """the literal list of dynamically bound names in detect_simulator, and the
-    list of simulators that fall back to TOUGH2."""
+    list of simulators that fall back to TOUGH2.  The variables are found by role:
+    the list is what the loop containing setattr(self, f, getattr(self, f_sim)) iterates."""
     ds = prog.func('t2listing.t2listing.detect_simulator')
     names, fallback = None, None
+    loop = None
     for n in walk_no_nested(ds.node):
-        if isinstance(n, ast.Assign) and len(n.targets) == 1 and isinstance(n.targets[0], ast.Name) \
-           and n.targets[0].id == 'internal_fns' and isinstance(n.value, ast.List):
-            names = [const_str(e) for e in n.value.elts]
-        if isinstance(n, ast.Compare) and isinstance(n.left, ast.Name) and n.left.id == 'simname' and \
-           isinstance(n.ops[0], ast.In) and isinstance(n.comparators[0], ast.List):
-            fallback = [const_str(e) for e in n.comparators[0].elts]
+        if isinstance(n, ast.For):
+            for c in ast.walk(n):
+                if isinstance(c, ast.Call) and call_name(c) == 'setattr' and len(c.args) == 3 and \
+                   isinstance(c.args[2], ast.Call) and call_name(c.args[2]) == 'getattr':
+                    loop = n
+    if loop is None:
+        raise AnalysisError('detect_simulator: loop with setattr(self, fname, getattr(self, fname_sim)) not found')
+    it = loop.iter
+    if isinstance(it, ast.Name):
+        vals = [n.value for n in walk_no_nested(ds.node) if isinstance(n, ast.Assign) and len(n.targets) == 1 and
+                isinstance(n.targets[0], ast.Name) and n.targets[0].id == it.id]
+        it = vals[0] if len(vals) == 1 else None
+    if isinstance(it, (ast.List, ast.Tuple)):
+        names = [const_str(e) for e in it.elts]
+    for n in walk_no_nested(ds.node):
+        if isinstance(n, ast.Compare) and isinstance(n.left, ast.Name) and \
+           isinstance(n.ops[0], ast.In) and isinstance(n.comparators[0], (ast.List, ast.Tuple)):
+            cand = [const_str(e) for e in n.comparators[0].elts]
+            if cand and all(c in SIMS for c in cand): fallback = cand
     if not names or None in names:
-        raise AnalysisError('detect_simulator: literal internal_fns list not found')
-    # the binding statement itself
-    ok = False
-    for n in walk_no_nested(ds.node):
-        if isinstance(n, ast.Call) and call_name(n) == 'setattr' and len(n.args) == 3 and \
-           isinstance(n.args[2], ast.Call) and call_name(n.args[2]) == 'getattr':
-            ok = True
-    if not ok:
-        raise AnalysisError('detect_simulator: setattr(self, fname, getattr(self, fname_sim)) not found')
+        raise AnalysisError('detect_simulator: literal list of dynamically bound method names not found')
     return names, (fallback or [])
 
 
